@@ -433,8 +433,11 @@ def foreign_items(kinds, model):
         its.append(typedef("TaggedHandle", [], path("Tagged", inner), None, True))
         args.append(("handle", ptr(path("TaggedHandle"), False)))
     if "func" in kinds or args:
-        fns.append(function("render_frame", prim("u32"), [("frame_no", prim("u32"))] + args,
+        # split so that every declaration stays below cbindgen's line_length (its vertical wrapping is not modelled)
+        fns.append(function("render_frame", prim("u32"), [("frame_no", prim("u32"))] + args[:2],
                             [" Unrelated exported function."], True))
+        if args[2:]:
+            fns.append(function("render_scene", VOID, args[2:], None, True))
     return its, fns
 
 
